@@ -6,6 +6,43 @@ use json_syntax::print::{Indent, Limit, Options};
 use json_syntax::{Parse, Print, Value};
 use serde_json::{json, Value as J};
 
+/// The printing machinery as a USER of the crate sees it (print::contextual): a user type whose items print like JSON values
+/// under a context, laid out by the crate's generic helpers (`[T]: PrintWithSizeAndContext`, `Meta`, `Stripped`,
+/// `print_array`, `pre_compute_array_size`).  The text must be the layout of the corresponding JSON array.
+pub mod ctxprint {
+	use contextual::WithContext;
+	use json_syntax::print::{Options, PrecomputeSize, PrecomputeSizeWithContext, Print, PrintWithContext, PrintWithSize, PrintWithSizeAndContext, Size};
+	use json_syntax::Value;
+	use std::fmt;
+
+	pub struct Ctx;
+	pub struct Item(pub Value);
+	impl PrecomputeSizeWithContext<Ctx> for Item {
+		fn contextual_pre_compute_size(&self, _c: &Ctx, options: &Options, sizes: &mut Vec<Size>) -> Size {
+			self.0.pre_compute_size(options, sizes)
+		}
+	}
+	impl PrintWithSizeAndContext<Ctx> for Item {
+		fn contextual_fmt_with_size(&self, _c: &Ctx, f: &mut fmt::Formatter, options: &Options, indent: usize, sizes: &[Size], index: &mut usize) -> fmt::Result {
+			self.0.fmt_with_size(f, options, indent, sizes, index)
+		}
+	}
+	/// a user container: a list of items, each possibly wrapped in locspan::Meta / Stripped
+	pub struct Items(pub Vec<locspan::Meta<locspan::Stripped<Item>, u8>>);
+	impl PrintWithContext<Ctx> for Items {
+		fn contextual_fmt_with(&self, c: &Ctx, f: &mut fmt::Formatter, options: &Options, indent: usize) -> fmt::Result {
+			let mut sizes = Vec::new();
+			self.0.as_slice().contextual_pre_compute_size(c, options, &mut sizes);
+			let mut index = 0;
+			self.0.as_slice().contextual_fmt_with_size(c, f, options, indent, &sizes, &mut index)
+		}
+	}
+	pub fn print_items(items: &[Value], o: Options) -> String {
+		let it = Items(items.iter().map(|v| locspan::Meta(locspan::Stripped(Item(v.clone())), 7u8)).collect());
+		it.with(&Ctx).print_with(o).to_string()
+	}
+}
+
 /// a sink that fails after `left` bytes
 struct Failing { left: usize }
 impl std::fmt::Write for Failing {
@@ -156,6 +193,14 @@ pub fn replay_print(rep: &mut Report, rec: &J) {
 		rep.mismatch("C13.layout", json!({"what": "inline_print differs from print_with(inline)", "vector": rec}));
 	}
 	// C04: the real output (whatever it is) re-parses to the value with the real strict parser
+	// the same layout through the generic / contextual printing layer a user type goes through
+	if let Value::Array(items) = &v {
+		match guarded(|| ctxprint::print_items(items, o.clone())) {
+			Ok(t) if t == exp => (),
+			Ok(t) => rep.mismatch("C13.contextual", json!({"what": "a user container printed through the contextual layer (print_array / pre_compute_array_size over Meta<Stripped<T>>) is not laid out like the JSON array of the same items", "vector": rec, "observed": t})),
+			Err(p) => rep.mismatch("C13.panic", json!({"what": "contextual printing panicked", "vector": rec, "panic": p})),
+		}
+	}
 	if rep.counters["print_vectors"] % 4 == 0 {
 		crate::parsev::disturb();
 	}
